@@ -32,7 +32,12 @@ RULE = ("(1) TLC enumerates every node of the draw-parameter tree x every scalar
         "(3) archetypes x windows (from TLC) x flag rows (quick: seeded pairwise-covering rows + random rows; thorough: "
         "full product over the 12 top-level flags of the statement x the 8 obstacle archetypes, remaining flags random) "
         "must draw and render without exception; a failing run is re-run with fewer settings to name the minimal cause. "
-        "distinct_nontrivial = distinct (node, field) + (descriptor, window, filter) + (archetype, flag row) cases.")
+"Also: Replace(node, child group) histories per slot; save -> load round trips of parameter objects (per node, all "
+        "scalars non-default) and parameters loaded from a saved style file as a route of the window / light / totality "
+        "parts; light configurations x time_begin (lights inside / outside the plot area); totality rows carry a view "
+        "(automatic limits, explicit limits and focus windows including / excluding the signs and lights), a draw target "
+        "(scenario, lanelet network, single objects) and the parameter route. Every draw+render runs on a fresh figure. "
+                "distinct_nontrivial = distinct (node, field) + (descriptor, window, filter) + (archetype, flag row) cases.")
 ASSUMPTIONS = ["parameter-tree table spec/RenderTree.tla is generated from dataclasses.fields of the real classes and "
                "re-generated at every check (difference = SPEC-DRIFT, machinery failure, never a violation)",
                "only scalar (non-group, public) fields are Set; values are of the declared type",
@@ -40,7 +45,10 @@ ASSUMPTIONS = ["parameter-tree table spec/RenderTree.tla is generated from datac
                "(obstacle, time) occupancy lives in its own 10x10 cell",
                "lanelets drawn are observed through the paths of the collections in the public MPRenderer.static_collections "
                "(there is no public per-lanelet record); default lanelet flags (fill on) are used for that part",
-               "render = MPRenderer.render() followed by figure.canvas.draw() (Agg)",
+               "render = MPRenderer.render() followed by figure.canvas.draw() (Agg), on a fresh figure + axes for every "
+               "draw (no state of an earlier render can reach a later one; labels of findings are computed per case)",
+               "save -> load: base parameters (time_begin, time_end, antialiased) of nested groups that differ from the "
+               "root are an EITHER band (the loading constructor propagates the root's values, as documented)",
                "time_end itself is an EITHER band (documented inclusive, implemented exclusive)"]
 
 TREE_FILE = os.path.join(tlc.SPEC, "RenderTree.tla")
@@ -115,7 +123,40 @@ def _node(p, path):
 
 
 def _tok(v):
-    return repr(v)
+    """Value token: the repr, prefixed by the type name for anything that is not a plain Python value (so that a list
+    and a list-like container with the same elements are different tokens)."""
+    if type(v) in (bool, int, float, str, list, dict, tuple, type(None)):
+        return repr(v)
+    return "<%s>%r" % (type(v).__name__, v)
+
+
+_RT = [0]
+
+
+def roundtrip(p):
+    """save -> load of a parameter object through a YAML file under /verif/out (removed afterwards)."""
+    d = os.path.join(tlc.OUT, "c19_yaml")
+    os.makedirs(d, exist_ok=True)
+    path = os.path.join(d, "%d_%d.yaml" % (os.getpid(), _RT[0]))
+    _RT[0] += 1
+    try:
+        p.save(path)
+        return type(p).load(path)
+    finally:
+        if os.path.exists(path):
+            os.remove(path)
+
+
+def _roundtrip_event(p, sig):
+    before = snapshot(p)
+    try:
+        after, res = snapshot(roundtrip(p)), "ok"
+    except Exception as ex:
+        after, res = before, "exc:" + type(ex).__name__
+    return {"op": "roundtrip", "res": res, "sets": len(before),
+            "changed": [[list(path), k] for (path, k) in sorted(set(before) | set(after))
+                        if before.get((path, k), "<absent>") != after.get((path, k), "<absent>")],
+            "sig": sig}
 
 
 def _walk(p, path=()):
@@ -236,6 +277,22 @@ def _exec_tree(case):
         w = _values_for(g, p, other)[0]
         ev.append(_set_event(p, other, g, w, "attr", "propagate/other-field", memo))
         ev.append(_set_event(p, node_path, field, v2, "attr", sig, memo, "after-other"))
+    # save -> load round trips: every scalar declared at or below this node set to a non-default value (list- and
+    # dict-valued ones included); base parameters only at the root (see RoundtripBand); then the same with random Sets
+    for variant in (("all-fields", "random-sets") if not node_path else ("all-fields",)):
+        p = MPDrawParams()
+        for q in all_nodes:
+            if q[:len(node_path)] != node_path:
+                continue
+            nd = _node(p, q)
+            for k in sorted(vars(nd)):
+                if k.startswith("_") or hasattr(getattr(nd, k), "__dataclass_fields__") or k in ("time_begin", "time_end",
+                                                                                                 "antialiased"):
+                    continue
+                if variant == "all-fields" or rng.random() < 0.3:
+                    setattr(nd, k, _typed_values(getattr(nd, k), k)[0])
+        p.time_begin, p.time_end = 3, 5
+        ev.append(_roundtrip_event(p, "roundtrip/%s@%s" % (variant, at)))
     return ev
 
 
@@ -392,17 +449,18 @@ def build_obstacle(d):
 LIGHT_IDS = (301, 302)                           # light 301+k stands in cell column k of row -2 and is referenced by lanelet 101+k
 
 
-def build_light(lid, desc, k):
-    """Light descriptor {cyc: [{d, c}], off, active} -> TrafficLight standing in cell (row -2, column k)."""
+def build_light(lid, desc, k, inside=False):
+    """Light descriptor {cyc: [{d, c}], off, active} -> TrafficLight standing in cell column k: below the lanelets (row -2,
+    outside the automatic plot limits) or, inside=True, in the middle of lanelet 101+k (inside the plot area)."""
     import numpy as np
     from commonroad.scenario.traffic_light import (TrafficLight, TrafficLightCycle, TrafficLightCycleElement,
                                                    TrafficLightState)
     els = [TrafficLightCycleElement(TrafficLightState(x["c"]), x["d"]) for x in desc["cyc"]]
-    return TrafficLight(lid, np.array([CELL * k + 5.0, -15.0]), TrafficLightCycle(els, time_offset=desc["off"]),
+    return TrafficLight(lid, np.array([CELL * k + 5.0, -5.0 if inside else -15.0]), TrafficLightCycle(els, time_offset=desc["off"]),
                         active=bool(desc["active"]))
 
 
-def build_window_scenario(descs, lights=()):
+def build_window_scenario(descs, lights=(), lights_inside=False):
     """Lanelets 101 -> 102 -> 103 (successors), one per cell of row -1; light k is referenced by lanelet 101+k and so
     governs the centre-line colour of lanelet 102+k; the obstacles of the descriptors."""
     from crv import gamma as G
@@ -419,7 +477,7 @@ def build_window_scenario(descs, lights=()):
         las.append(G.lanelet(lid, CELL * k + 2.0, -6.5, 6.0, 3.0, **kw))
     net = G.network(las)
     for k, desc in enumerate(lights):
-        net.add_traffic_light(build_light(LIGHT_IDS[k], desc, k), {LANELETS[k]})
+        net.add_traffic_light(build_light(LIGHT_IDS[k], desc, k, lights_inside), {LANELETS[k]})
     sc.add_objects(net)
     for d in descs:
         sc.add_objects(build_obstacle(d))
@@ -519,7 +577,7 @@ def observe_lights(artists):
         if not isinstance(a, AnnotationBbox):
             continue
         row, k = int(math.floor(a.xy[1] / CELL)), int(math.floor(a.xy[0] / CELL))
-        lid = LIGHT_IDS[k] if row == -2 and 0 <= k < len(LIGHT_IDS) else 0
+        lid = LIGHT_IDS[k] if row in (-1, -2) and 0 <= k < len(LIGHT_IDS) else 0
         for im in images(a.offsetbox):
             data = np.asarray(im.get_data())
             tok = [t for t, ref in _LIGHT_IMAGES.items() if ref.shape == data.shape and np.array_equal(ref, data)]
@@ -562,7 +620,7 @@ def _params_window(b, e, route):
         p.time_end = e
     elif route == "ctor":
         p = MPDrawParams(time_begin=b, time_end=e)
-    else:
+    else:                                             # "attr", "item", "file" (file: see roundtrip at the call site)
         p = MPDrawParams()
         if route == "item":
             p["time_begin"] = b
@@ -574,57 +632,67 @@ def _params_window(b, e, route):
 
 
 class _Fig:
-    """The matplotlib figure of this worker process: reused (MPRenderer.render clears the axes first), replaced after an
-    exception and after every 40 renders so that memory stays bounded."""
-    fig = ax = None
-    uses = 0
+    """A fresh matplotlib figure + axes for EVERY draw+render, closed afterwards: no axis limits, autoscale state or
+    artists of an earlier render can influence a later one, so the outcome of a case does not depend on what the worker
+    process executed before (a replay of a violation reproduces it)."""
 
     def get(self):
         import matplotlib.pyplot as plt
-        if _Fig.fig is None or _Fig.uses >= 40:
-            plt.close("all")
-            _Fig.fig, _Fig.ax = plt.subplots(figsize=(3, 2), dpi=50)
-            _Fig.uses = 0
-        _Fig.uses += 1
-        return _Fig.fig, _Fig.ax
+        plt.close("all")
+        return plt.subplots(figsize=(3, 2), dpi=50)
 
     def drop(self):
         import matplotlib.pyplot as plt
         plt.close("all")
-        _Fig.fig = _Fig.ax = None
 
-    def done(self):
-        """End of a case: keep the figure for the next case of this process."""
+    done = drop
 
 
 def _exc(ex):
+    if os.environ.get("CRV_TB"):                      # diagnosis aid: keep the traceback of a failing draw / render
+        import traceback
+        with open(os.path.join(tlc.OUT, "c19_tb.log"), "a") as f:
+            f.write("".join(traceback.format_exception(type(ex), ex, ex.__traceback__)) + "\n")
+            tb = ex.__traceback__
+            while tb is not None:
+                if tb.tb_frame.f_code.co_filename.endswith("visualization/traffic_sign.py"):
+                    f.write("locals: %r\n" % {k: v for k, v in tb.tb_frame.f_locals.items() if k != "self"})
+                    slf = tb.tb_frame.f_locals.get("self")
+                    f.write("self: %r\n" % {k: getattr(slf, k, None) for k in ("dx_m", "dy_m", "dx_pix", "dy_pix", "px_per_metre")})
+                tb = tb.tb_next
     return "exc:" + type(ex).__name__
 
 
-def draw_and_render(figs, params, drawables, observe=None, observe_after=None):
-    """draw every drawable, call observe(renderer) between draw and render, render + rasterise.  Returns (draw result,
-    render result, observation)."""
+def draw_and_render(figs, params, drawables, observe=None, observe_after=None, rkw=None):
+    """On a fresh figure: build the renderer, draw every drawable, call observe(renderer) between draw and render, render
+    + rasterise, call observe_after(artists).  params / drawables / rkw may be callables (evaluated inside the guarded
+    draw phase).  Returns (draw result, render result, observation)."""
     from commonroad.visualization.mp_renderer import MPRenderer
     fig, ax = figs.get()
     obs = None
     try:
-        r = MPRenderer(draw_params=params, ax=ax)
-        for d in drawables:
-            d.draw(r)
-    except Exception as ex:
+        try:
+            if callable(params):
+                params = params()
+            if callable(rkw):
+                rkw = rkw()
+            r = MPRenderer(draw_params=params, ax=ax, **(rkw or {}))
+            for d in (drawables(r) if callable(drawables) else drawables):
+                d.draw(r)
+        except Exception as ex:
+            return _exc(ex), "skipped", None
+        if observe is not None:
+            obs = observe(r)
+        try:
+            artists = r.render()
+            fig.canvas.draw()
+        except Exception as ex:
+            return "ok", _exc(ex), obs
+        if observe_after is not None:
+            obs = (obs, observe_after(artists))
+        return "ok", "ok", obs
+    finally:
         figs.drop()
-        return _exc(ex), "skipped", None
-    if observe is not None:
-        obs = observe(r)
-    try:
-        artists = r.render()
-        fig.canvas.draw()
-    except Exception as ex:
-        figs.drop()
-        return "ok", _exc(ex), obs
-    if observe_after is not None:
-        obs = (obs, observe_after(artists))
-    return "ok", "ok", obs
 
 
 def _wclass(d, b, e):
@@ -649,22 +717,28 @@ def _exec_window(case):
     try:
         for i, fname in enumerate(case["filters"]):
             route = case.get("route") or ("attr", "ctor", "item")[(b + e + i) % 3]
+            if case.get("file") and i == 0:
+                route = "file"
             sc = build_window_scenario(descs)
-            p = _params_window(b, e, route)
-            statement_flags(p)
             ids = FILTERS[fname]
-            if ids is not None:
-                p.lanelet_network.draw_ids = list(ids)
+
+            def params(route=route, ids=ids):
+                p = _params_window(b, e, route)
+                statement_flags(p)
+                if ids is not None:
+                    p.lanelet_network.draw_ids = list(ids)
+                return roundtrip(p) if route == "file" else p       # set in memory vs loaded from a style file
             occ = model_occupancies(sc)
-            dres, rres, obs = draw_and_render(figs, p, [sc], lambda r: (observe_patches(r), observe_lanelets(r)))
-            ev.append({"op": "draw", "part": "window", "res": dres, "sig": "draw/" + tag})
+            dres, rres, obs = draw_and_render(figs, params, [sc], lambda r: (observe_patches(r), observe_lanelets(r)))
+            ev.append({"op": "draw", "part": "window", "res": dres, "route": route,
+                       "sig": "draw/" + tag + ("@file" if route == "file" else "")})
             if obs is not None:
                 (cells, stray), (lids, parts, lstray) = obs
                 ev.append({"op": "drawn", "obs": descs, "b": b, "e": e, "occ": occ, "drawn": cells, "stray": stray,
                            "sig": "drawn/" + tag})
                 ev.append({"op": "lanelets", "net": list(LANELETS), "filter": 0 if ids is None else 1,
                            "ids": list(ids or []), "lanelets": lids, "parts": parts, "defaults": 1, "stray": lstray,
-                           "sig": "lanelets/" + fname})
+                           "sig": "lanelets/" + fname + ("@file" if route == "file" else "")})
             ev.append({"op": "render", "res": rres, "sig": "render/" + tag})
     finally:
         figs.done()
@@ -680,16 +754,21 @@ def _exec_lights(case):
     figs, ev = _Fig(), []
     try:
         for fname in case["filters"]:
-            sc = build_window_scenario([], lights)
+            sc = build_window_scenario([], lights, bool(case.get("inside")))
             net = sc.lanelet_network
             # the model's own answers, only used as a label: is a lanelet governed by a light in an inactive phase?
             gov = [net.find_traffic_light_by_id(LIGHT_IDS[k]).get_state_at_time_step(t).value for k in range(len(lights))]
-            tag = "lights-" + ("some-inactive-phase" if "inactive" in gov else "all-coloured")
-            p = _params_window(t, t + 1, ("attr", "ctor", "item")[t % 3])
+            tag = "lights-" + ("some-inactive-phase" if "inactive" in gov else "all-coloured") + \
+                  ("/inside-plot" if case.get("inside") else "")
             ids = FILTERS[fname]
-            if ids is not None:
-                p.lanelet_network.draw_ids = list(ids)
-            dres, rres, obs = draw_and_render(figs, p, [sc], observe_lanelets, observe_lights)
+            route = ("attr", "ctor", "item")[t % 3] if not case.get("file") else "file"
+
+            def params(route=route, ids=ids):
+                p = _params_window(t, t + 1, route)
+                if ids is not None:
+                    p.lanelet_network.draw_ids = list(ids)
+                return roundtrip(p) if route == "file" else p
+            dres, rres, obs = draw_and_render(figs, params, [sc], observe_lanelets, observe_lights)
             ev.append({"op": "draw", "part": "lights", "res": dres, "sig": "draw/" + tag})
             if obs is not None:
                 lobs, shown = obs if rres == "ok" else (obs, None)
@@ -742,6 +821,10 @@ ROOT_FLAGS = [":draw_shape", ":draw_icon", ":draw_direction", ":show_label", ":d
 # archetypes of the full flag product in the thorough tier (the ones with dynamic / phantom obstacles)
 PRODUCT_ARCHETYPES = ("plain", "point-mass", "custom-state", "no-orientation", "uncertain-position", "uncertain-orientation",
                       "defaults", "interval-sets")
+FEAT_DEFAULTS = {"lanelets": "all", "problems": "all", "view": "auto", "target": "scenario", "via": "memory"}
+VIEWS = ("auto", "limits-include", "limits-exclude", "focus-include", "focus-exclude")
+TARGETS = ("scenario", "network", "objects")
+ROUTES = ("memory", "file")
 LFILTERS = {"all": None, "none-selected": [], "some": [101, 103], "unknown": [999]}
 PFILTERS = {"all": None, "none-selected": [], "some": [11, 13], "unknown": [99]}
 
@@ -870,6 +953,19 @@ def build_archetype(name):
         pps = PlanningProblemSet([PlanningProblem(11 + i, G.init_state(1 + 2 * i, 1.5), g) for i, g in enumerate(gs)])
     elif name == "signs-lights":
         sc.add_objects(G.static_obstacle(1, 5, 1.5, R))
+    elif name == "signs-inside":              # signs (with / without additional value, two elements) and lights INSIDE the
+        from commonroad.scenario.traffic_sign import TrafficSign, TrafficSignElement, TrafficSignIDZamunda as Z     # lanelet area
+        net = sc.lanelet_network
+        signs = {101: TrafficSign(201, [TrafficSignElement(Z.MAX_SPEED, ["10"])], {101}, arr(10, 1.5)),
+                 102: TrafficSign(202, [TrafficSignElement(Z.STOP, [])], {102}, arr(30, 1.5)),
+                 103: TrafficSign(203, [TrafficSignElement(Z.MAX_SPEED, ["20"]), TrafficSignElement(Z.PRIORITY, []),
+                                        TrafficSignElement(Z.ADDITION_VALID_FOR_X_METERS, ["100"])], {103}, arr(10, 4.5))}
+        for lid, sg in signs.items():
+            net.add_traffic_sign(sg, {lid})
+        net.add_traffic_light(G.light(301, (20.0, 1.5), (("red", 2), ("red_yellow", 1), ("green", 2), ("inactive", 1)), 1), {101})
+        net.add_traffic_light(G.light(302, (25.0, 4.5)), {103})
+        sc.add_objects(G.static_obstacle(1, 5, 1.5, R))
+        sc.add_objects(G.dynamic_obstacle(2, 2, 4.5, R, [(4, 4.5, 0.0), (6, 4.5, 0.0), (8, 4.5, 0.0)], 1))
     elif name in ("lights-inactive", "light-no-cycle"):
         from commonroad.scenario.traffic_light import (TrafficLight, TrafficLightCycle, TrafficLightCycleElement,
                                                        TrafficLightState)
@@ -915,22 +1011,61 @@ def apply_flags(p, flags):
         setattr(_node(p, [x for x in path.split(".") if x]), f, bool(v))
 
 
-def _total_once(figs, arch, b, e, flags, lf, pf):
+def _renderer_kwargs(view, sc):
+    """The camera: automatic limits, explicit plot limits that include / exclude the signs and lights of the archetypes,
+    a focus obstacle with a wide (default) / narrow window around it."""
+    from commonroad.scenario.obstacle import DynamicObstacle
+    if view == "limits-include":
+        return {"plot_limits": [-5.0, 45.0, -5.0, 13.0]}
+    if view == "limits-exclude":
+        return {"plot_limits": [[0.0, 8.0], [3.2, 6.0]]}
+    if view in ("focus-include", "focus-exclude"):
+        obs = sorted(sc.obstacles, key=lambda o: (not isinstance(o, DynamicObstacle), o.obstacle_id))
+        kw = {"focus_obstacle": obs[0]} if obs else {}
+        if view == "focus-exclude":
+            kw["plot_limits"] = [-1.5, 1.5, -1.0, 1.0]
+        return kw
+    return {}
+
+
+def _total_once(figs, arch, b, e, flags, feats):
     from commonroad.visualization.draw_params import MPDrawParams
+    feats = dict(FEAT_DEFAULTS, **feats)
     sc, pps = build_archetype(arch)
-    p = MPDrawParams()
-    p.time_begin = b
-    p.time_end = e
-    apply_flags(p, flags)
-    if LFILTERS[lf] is not None:
-        p.lanelet_network.draw_ids = list(LFILTERS[lf])
-    if PFILTERS[pf] is not None:
-        p.planning_problem_set.draw_ids = list(PFILTERS[pf])
-    dres, rres, _ = draw_and_render(figs, p, [sc] + ([pps] if pps is not None else []))
+
+    def params():
+        import copy
+        key = (frozenset(flags.items()), feats["lanelets"], feats["problems"])
+        if feats["via"] == "file" and key in _LOADED:
+            p = copy.deepcopy(_LOADED[key])           # the style sheet of this case was loaded already
+        else:
+            p = MPDrawParams()
+            apply_flags(p, flags)
+            if LFILTERS[feats["lanelets"]] is not None:
+                p.lanelet_network.draw_ids = list(LFILTERS[feats["lanelets"]])
+            if PFILTERS[feats["problems"]] is not None:
+                p.planning_problem_set.draw_ids = list(PFILTERS[feats["problems"]])
+            if feats["via"] == "file":                # set in memory, saved, loaded: one load per case and setting
+                _LOADED[key] = roundtrip(p)
+                p = copy.deepcopy(_LOADED[key])
+        p.time_begin = b                              # the window is selected on the (loaded) object, at the top level
+        p.time_end = e
+        return p
+
+    if feats["target"] == "network":
+        drawables = [sc.lanelet_network]
+    elif feats["target"] == "objects":          # every sign, light and obstacle handed to the renderer on its own
+        net = sc.lanelet_network
+        drawables = list(net.traffic_signs) + list(net.traffic_lights) + list(sc.obstacles)
+    else:
+        drawables = [sc]
+    dres, rres, _ = draw_and_render(figs, params, drawables + ([pps] if pps is not None else []),
+                                    rkw=lambda: _renderer_kwargs(feats["view"], sc))
     return dres, rres
 
 
-_MINIMAL = {}       # per process: outcome -> [(minimal settings, culprit archetype)] already found
+_LOADED = {}        # per CASE (reset in _exec_total): settings -> parameter object loaded from the saved style sheet
+_MINIMAL = {}       # per CASE (reset in _exec_total): outcome -> [(minimal settings, culprit archetype)] already found
 
 
 def _short(key):
@@ -938,23 +1073,23 @@ def _short(key):
     return f if not path else path.split(".")[-1] + "." + f
 
 
-def minimise(figs, arch, b, e, flags, lf, pf, outcome):
+def minimise(figs, arch, b, e, flags, feats, outcome):
     """Smallest set of non-default settings that still gives the same outcome: the label of the finding.
     Only computes a name (by re-running the real code with fewer settings); the verdict is the logged outcome of the
-    original run.  Causes found earlier in this process are tried first (one confirming run each)."""
+    original run.  Causes found earlier in the same case are tried first (one confirming run each)."""
     defaults = flag_defaults()
     rooted = {k[1:] for k in flags if k.startswith(":")}
     # keep a group-level flag at its default when a top-level flag of the same field is in the row (it masks it)
     cur = {k: v for k, v in flags.items() if k.startswith(":") or defaults[k] != v or k.split(":")[1] in rooted}
-    feats = {"lanelets": lf, "problems": pf}
-    run = lambda fl, ft, a=arch: _total_once(figs, a, b, e, fl, ft["lanelets"], ft["problems"])
+    feats = dict(FEAT_DEFAULTS, **feats)
+    run = lambda fl, ft, a=arch: _total_once(figs, a, b, e, fl, ft)
+    nondef = lambda ft: [(k, v) for k, v in sorted(ft.items()) if v != FEAT_DEFAULTS[k]]
 
     def split(settings):
-        fl = {k: v for k, v in settings if k not in ("lanelets", "problems")}
-        ft = dict({"lanelets": "all", "problems": "all"}, **{k: v for k, v in settings if k in ("lanelets", "problems")})
-        return fl, ft
+        fl = {k: v for k, v in settings if k not in FEAT_DEFAULTS}
+        return fl, dict(FEAT_DEFAULTS, **{k: v for k, v in settings if k in FEAT_DEFAULTS})
 
-    items = set(list(cur.items()) + [(k, v) for k, v in feats.items() if v != "all"])
+    items = set(list(cur.items()) + nondef(feats))
     for (settings, culprit) in _MINIMAL.get(outcome, []):
         if settings <= items and culprit in (arch, "any-scenario") and run(*split(settings)) == outcome:
             return settings, culprit
@@ -972,9 +1107,9 @@ def minimise(figs, arch, b, e, flags, lf, pf, outcome):
             reduce(keys[:len(keys) // 2])
             reduce(keys[len(keys) // 2:])
     reduce(sorted(cur, key=lambda k: (not k.startswith(":"), k)))           # top-level flags first
-    for k in ("lanelets", "problems"):
-        if feats[k] != "all":
-            trial = dict(feats, **{k: "all"})
+    for k in sorted(FEAT_DEFAULTS):
+        if feats[k] != FEAT_DEFAULTS[k]:
+            trial = dict(feats, **{k: FEAT_DEFAULTS[k]})
             if run(cur, trial) == outcome:
                 feats = trial
     # a top-level flag that is needed: name the single group whose flag is responsible, if there is one
@@ -992,7 +1127,7 @@ def minimise(figs, arch, b, e, flags, lf, pf, outcome):
     culprit = arch
     if arch != "empty" and run(cur, feats, "plain" if arch != "plain" else "point-mass") == outcome:
         culprit = "any-scenario"
-    res = (frozenset(list(cur.items()) + [(k, v) for k, v in feats.items() if v != "all"]), culprit)
+    res = (frozenset(list(cur.items()) + nondef(feats)), culprit)
     _MINIMAL.setdefault(outcome, []).append(res)
     return res
 
@@ -1001,7 +1136,7 @@ def _label(minimal):
     settings, culprit = minimal
     parts = []
     for k, v in sorted(settings):
-        if k in ("lanelets", "problems"):
+        if k in FEAT_DEFAULTS:
             parts.append("%s=%s" % (k, v))
         else:
             parts.append(_short(k) if v else "no-" + _short(k))
@@ -1009,22 +1144,23 @@ def _label(minimal):
 
 
 def _exec_total(case):
-    arch, flags, lf, pf = case["arch"], dict(case["flags"]), case["lf"], case["pf"]
+    arch, flags = case["arch"], dict(case["flags"])
+    feats = {"lanelets": case["lf"], "problems": case["pf"], "view": case.get("view", "auto"),
+             "target": case.get("target", "scenario"), "via": case.get("via", "memory")}
     on = sorted(k for k, v in flags.items() if v)
     figs, ev = _Fig(), []
-    try:
-        for (wname, b, e) in case["wins"]:
-            outcome = _total_once(figs, arch, b, e, flags, lf, pf)
-            sig = "total/%s/%s" % (arch, wname)
-            if outcome != ("ok", "ok"):
-                sig = _label(minimise(figs, arch, b, e, flags, lf, pf, outcome))
-            base = {"part": "total", "arch": arch, "win": wname, "b": b, "e": e, "on": on, "lf": lf, "pf": pf, "sig": sig}
-            ev.append(dict(base, op="draw", res=outcome[0]))
-            ev.append(dict(base, op="render", res=outcome[1]))
-    finally:
-        figs.done()
+    _MINIMAL.clear()                # labels must not depend on what this worker process executed before
+    _LOADED.clear()
+    for (wname, b, e) in case["wins"]:
+        outcome = _total_once(figs, arch, b, e, flags, feats)
+        sig = "total/%s/%s" % (arch, wname)
+        if outcome != ("ok", "ok"):
+            sig = _label(minimise(figs, arch, b, e, flags, feats, outcome))
+        base = {"part": "total", "arch": arch, "win": wname, "b": b, "e": e, "on": on, "lf": feats["lanelets"],
+                "pf": feats["problems"], "view": feats["view"], "target": feats["target"], "via": feats["via"], "sig": sig}
+        ev.append(dict(base, op="draw", res=outcome[0]))
+        ev.append(dict(base, op="render", res=outcome[1]))
     return ev
-
 
 
 # =====================================================================================================================
@@ -1066,7 +1202,8 @@ def pairwise_rows(rng, factors, candidates=12):
 def _row_case(arch, wins, row):
     flags = {k: v for k, v in row.items() if ":" in k}
     return {"part": "total", "arch": arch, "wins": wins[arch], "flags": flags, "lf": row.get("lf", "all"),
-            "pf": row.get("pf", "all")}
+            "pf": row.get("pf", "all"), "view": row.get("view", "auto"), "target": row.get("target", "scenario"),
+            "via": row.get("via", "memory")}
 
 
 def cases(ctx):
@@ -1090,8 +1227,12 @@ def cases(ctx):
     for i, c in enumerate(sorted(win, key=lambda c: json.dumps(c, sort_keys=True))):
         d = {"id": 1, "kind": c["desc"]["kind"], "t0": c["desc"]["t0"], "n": c["desc"]["n"]}
         # quick: two of the seven lanelet filters per case, rotating (the filter does not interact with the obstacle)
-        cs.append({"part": "window", "obs": [d], "b": c["b"], "e": c["e"],
-                   "filters": fl if ctx.thorough else [fl[i % len(fl)], fl[(i + 3) % len(fl)]]})
+        case = {"part": "window", "obs": [d], "b": c["b"], "e": c["e"],
+                "filters": fl if ctx.thorough else [fl[i % len(fl)], fl[(i + 3) % len(fl)]]}
+        if i % 12 == 5:                 # parameters (window, flags, id filter) saved to a style file and loaded from it
+            sel = [f for f in fl if FILTERS[f] is not None]
+            case["file"], case["filters"] = 1, [sel[(i // 12) % len(sel)]] + case["filters"][1:]
+        cs.append(case)
         if d not in descs:
             descs.append(d)
         if [c["b"], c["e"]] not in windows:
@@ -1116,7 +1257,7 @@ def cases(ctx):
     lit = sorted(ctx.gen("MC_Render", "GEN_Render_lights.cfg"), key=lambda c: json.dumps(c, sort_keys=True))
     for i, c in enumerate(lit):
         other = lit[(i * 7 + 13) % len(lit)]["light"]
-        cs.append({"part": "lights", "lights": [c["light"], other], "t": c["t"],
+        cs.append({"part": "lights", "lights": [c["light"], other], "t": c["t"], "inside": (i // 2) % 2, "file": int(i % 8 == 3),
                    "filters": ["none"] if i % 4 else ["none", "two"]})
     ctx.extra["light_cases"] = {"light_configurations_x_time_begin": len(lit),
                                 "with_an_inactive_phase_in_the_cycle": sum(
@@ -1129,7 +1270,8 @@ def cases(ctx):
         wins.setdefault(c["arch"], []).append([c["win"], c["b"], c["e"]])
     archs = sorted(wins)
     factors = {k: [0, 1] for k in NODE_FLAGS}
-    factors.update({"arch": archs, "lf": sorted(LFILTERS), "pf": sorted(PFILTERS)})
+    factors.update({"arch": archs, "lf": sorted(LFILTERS), "pf": sorted(PFILTERS), "view": list(VIEWS),
+                    "target": list(TARGETS), "via": list(ROUTES)})
     rows = pairwise_rows(rng, factors)
     n_pair = len(rows)
     for row in rows:
@@ -1137,6 +1279,20 @@ def cases(ctx):
     for arch in archs:                                            # all defaults, everything on, everything off
         for v in (None, 0, 1):
             cs.append(_row_case(arch, wins, {} if v is None else {k: v for k in NODE_FLAGS}))
+    # signs and lights inside / outside the plot area: every view x target with sign / light drawing (and labels) on,
+    # at lanelet-network level and at top level
+    n_sign = 0
+    for arch in ("signs-inside", "signs-lights", "lights-inactive"):
+        for view in VIEWS:
+            for target in TARGETS:
+                for label in (0, 1):
+                    row = {"view": view, "target": target, "via": "file" if n_sign % 6 == 5 else "memory"}
+                    for grp in ("lanelet_network.traffic_sign", "traffic_sign"):
+                        row[grp + ":draw_traffic_signs"], row[grp + ":show_label"] = 1, label
+                    for grp in ("lanelet_network.traffic_light", "traffic_light"):
+                        row[grp + ":draw_traffic_lights"], row[grp + ":show_label"] = 1, label
+                    cs.append(_row_case(arch, wins, row))
+                    n_sign += 1
     n_rand = 0
     for _ in range(1500 if ctx.thorough else 500):
         dens = rng.choice([0.1, 0.5, 0.9])
@@ -1144,6 +1300,7 @@ def cases(ctx):
         if rng.random() < 0.5:
             row.update({k: rng.randint(0, 1) for k in ROOT_FLAGS if rng.random() < 0.3})
         row["lf"], row["pf"] = rng.choice(sorted(LFILTERS)), rng.choice(sorted(PFILTERS))
+        row["view"], row["target"], row["via"] = rng.choice(VIEWS), rng.choice(TARGETS), ("file" if rng.random() < 0.1 else "memory")
         cs.append(_row_case(rng.choice(archs), wins, row))
         n_rand += 1
     n_prod = 0
@@ -1159,7 +1316,7 @@ def cases(ctx):
                 row["lf"], row["pf"] = rng.choice(sorted(LFILTERS)), rng.choice(sorted(PFILTERS))
                 cs.append(_row_case(arch, short, row))
                 n_prod += 1
-    ctx.extra["total_rows"] = {"pairwise": n_pair, "random": n_rand, "product": n_prod, "archetypes": len(archs),
+    ctx.extra["total_rows"] = {"pairwise": n_pair, "signs_lights_x_view_x_target": n_sign, "random": n_rand, "product": n_prod, "archetypes": len(archs),
                                "flags": len(NODE_FLAGS), "top_level_flags": len(ROOT_FLAGS)}
     return cs
 
@@ -1191,7 +1348,8 @@ def nontrivial(case):
         return ("replace", tuple(case["node"]), case["child"])
     if case["part"] == "window":
         return ("window", case.get("route", ""), json.dumps(case["obs"], sort_keys=True), case["b"], case["e"], tuple(case["filters"]))
-    return ("total", case["arch"], json.dumps(case["flags"], sort_keys=True), case["lf"], case["pf"])
+    return ("total", case["arch"], json.dumps(case["flags"], sort_keys=True), case["lf"], case["pf"], case.get("view"),
+            case.get("target"), case.get("via"))
 
 
 def corrupt(trace, rng):
@@ -1205,6 +1363,8 @@ def corrupt(trace, rng):
             mine[0][1] = "<corrupted>"                            # the node itself did not take the value -> missed
         else:
             e["changed"].append([["static_obstacle"], "<no-such-field>"])      # something else changed -> clobbered
+    elif e["op"] == "roundtrip":
+        e["changed"].append([["lanelet_network"], "draw_ids"])     # a loaded value differs -> changed
     elif e["op"] == "replace":
         if rng.random() < 0.5:
             e["holds"] = 0                                        # the assignment did not take -> lost
